@@ -111,7 +111,7 @@ def validate(ctx, rows, skels, caps, tag, shard_rows=700, common=()):
     returns ([(row, why)], stats)"""
     if not rows:
         return [], {"valid": 0, "usable": 0}
-    ctx.write_json("flight_skel_%s.json" % tag, skels or {"_": {"len": 0, "pos": [], "val": []}})
+    ctx.write_json("flight_skel_%s.json" % tag, skels or {"_": {"len": 0, "pos": [], "val": [], "typ": []}})
     ctx.write_json("flight_caps_%s.json" % tag, caps or {"_": []})
     parts = [rows[i:i + shard_rows] for i in range(0, len(rows), shard_rows)]
 
@@ -273,6 +273,12 @@ def _connection_batch(ctx, pid, side, cases, classes, inserts, deadline_ms, btag
     rows = [full[r["sid"]] for r in rows]
     rejected += [(afull[r["sid"]], why) for r, why in arej]
 
+    # a live second ClientHello whose layout drifted in this connection (random GREASE-ECH payload size ...):
+    # the splice did not hit the node TLC meant; inconclusive, dropped and counted
+    drift = [(r, w) for r, w in rejected if w == "layout" and r["mkind"] == "client_hello"]
+    if drift:
+        ctx.note("%s: %d live ClientHello row(s) dropped, layout differed from the capture (e.g. %s)" % (pid, len(drift), drift[0][0]["case"]))
+        rejected = [x for x in rejected if x not in drift]
     mach = [(r, w) for r, w in rejected if w in MACHINERY_WHY]
     if mach:
         r, w = mach[0]
